@@ -35,6 +35,21 @@ macro_rules! imp_struct { ($n:ident) => {
     impl TT<u16> for $n { fn tt(&self, a: u16) -> u16 { step(self.st, self.id, 5, 17, a as u64) as u16 } }
 } }
 
+/// four-argument cglue_impl_group!: the type enables {FA, FB}; its forward `Fwd<&mut T>` only {FA}
+#[cglue_trait] #[cglue_forward] pub trait FBase { fn fbase(&self, a: u64) -> u64; }
+#[cglue_trait] #[cglue_forward] pub trait FA { fn fa(&self, a: u64) -> u64; }
+#[cglue_trait] #[cglue_forward] pub trait FB { fn fb(&self, a: u64) -> u64; }
+#[cglue_trait] #[cglue_forward] pub trait FC { fn fc(&self, a: u64) -> u64; }
+pub struct FImp { pub st: *mut State, pub id: u64 }
+unsafe impl Send for FImp {}
+unsafe impl Sync for FImp {}
+impl FBase for FImp { fn fbase(&self, a: u64) -> u64 { step(self.st, self.id, 20, 3, a) } }
+impl FA for FImp { fn fa(&self, a: u64) -> u64 { step(self.st, self.id, 21, 5, a) } }
+impl FB for FImp { fn fb(&self, a: u64) -> u64 { step(self.st, self.id, 22, 7, a) } }
+impl FC for FImp { fn fc(&self, a: u64) -> u64 { step(self.st, self.id, 23, 9, a) } }
+cglue_trait_group!(GF, FBase, { FA, FB, FC });
+cglue_impl_group!(FImp, GF, { FA, FB }, { FA });
+
 pub mod generated;
 #[cfg(kani)]
 mod verif {
@@ -59,6 +74,51 @@ mod verif {
     mod harnesses;
     pub use cglue::*;
     pub use cglue_macro::check;
+    #[kani::proof]
+    #[kani::unwind(14)]
+    fn p_cast_forward_list() {
+        // a group built from the concrete type offers exactly the traits enabled for the TYPE, whatever the
+        // (smaller) forward list says; the forward list only governs groups built over Fwd<&mut T>
+        use cglue::forward::ForwardMut;
+        let s0: State = kani::any();
+        let (id, a): (u64, u64) = kani::any();
+        let mut st = s0;
+        let which: u8 = kani::any();
+        kani::assume(which < 3);
+        let mut sd = s0;
+        let d = FImp { st: &mut sd, id };
+        let exp = d.fb(a);
+        core::mem::forget(d);
+        match which {
+            0 => {
+                let g = group_obj!(FImp { st: &mut st, id } as GF);
+                assert!(check!(g impl FA) && check!(g impl FB) && check!(g impl FA + FB) && !check!(g impl FC) && !check!(g impl FB + FC), "C08 boxed group: exactly the traits enabled for the type");
+                let c = cast!(g impl FA + FB).unwrap();
+                assert!(c.fb(a) == exp, "C08 requested trait dispatches to the same instance");
+                core::mem::forget(c);
+                assert!(st == sd);
+            }
+            1 => {
+                let mut inst = FImp { st: &mut st, id };
+                {
+                    let g = group_obj!(&mut inst as GF);
+                    assert!(check!(g impl FA) && check!(g impl FB) && !check!(g impl FC), "C08 by-mut group: exactly the traits enabled for the type");
+                    assert!(as_ref!(g impl FB).unwrap().fb(a) == exp);
+                }
+                core::mem::forget(inst);
+                assert!(st == sd);
+            }
+            _ => {
+                let mut inst = FImp { st: &mut st, id };
+                {
+                    let g: GFBaseBox<cglue::forward::Fwd<&mut FImp>> = From::from(cglue::forward::Fwd(&mut inst));
+                    assert!(check!(g impl FA) && !check!(g impl FB) && !check!(g impl FC), "C08 group over the forward: exactly the traits of the forward list");
+                }
+                core::mem::forget(inst);
+            }
+        }
+        kani::cover!(which == 2, "forward");
+    }
     #[kani::proof]
     fn canary_c08() {
         use super::generated::*;
